@@ -653,7 +653,7 @@ def check_rollback_and_wrappers(ctx):
 def check_single_writer_helpers(ctx):
     """the single-operation helpers of SingleWriterTxKeyspace are write transactions of their own: they must take the single-writer lock (write_tx) and commit,
     never write to the inner keyspace directly - otherwise they slip between the read and the write of another thread's read-modify-write transaction"""
-    for m in ('insert', 'remove', 'remove_weak', 'fetch_update', 'update_fetch'):
+    for m in ('insert', 'remove', 'remove_weak', 'fetch_update', 'update_fetch', 'take'):
         pat = r'^single_writer::keyspace::<impl>::' + m + '$'
         ob = ctx.ob(f'helpers/through-lock-{m}', f'SingleWriterTxKeyspace::{m}: runs inside a write transaction obtained from write_tx() (single-writer lock) and commits it; no direct write to the inner keyspace', [pat])
         try:
@@ -673,7 +673,7 @@ def check_single_writer_helpers(ctx):
             eff = [e for e in p.events if e.kind in ('T_INSERT', 'T_REMOVE', 'T_REMOVE_WEAK', 'J_APPEND')]
             wt = [i for i, c in enumerate(calls) if c.endswith('write_tx')]
             cm = [i for i, c in enumerate(calls) if c.endswith('::commit')]
-            txw = [i for i, c in enumerate(calls) if c.endswith(('WriteTransaction::' + m, 'write_tx::<impl>::' + m))]
+            txw = [i for i, c in enumerate(calls) if c.endswith(tuple(x + t for x in ('WriteTransaction::', 'write_tx::<impl>::') for t in ((m, 'fetch_update') if m == 'take' else (m,))))]
             if direct or eff:
                 bad.append((p, f'writes to the inner keyspace directly ({(direct or [eff[0].kind])[0]}) without the single-writer lock: it can land between the read and the write of another thread\'s transaction (lost update)')); continue
             if not wt or not cm or not txw or not (wt[0] < txw[0] < cm[-1]):
